@@ -69,6 +69,10 @@ def model_check_refcount(chk: Check) -> None:
     if not r.violated:
         raise MachineryError("DjcProvide with SelfRef=FALSE should be refuted (vacuity guard)")
     chk.add("refcount_prefix_counterexample_found", 1)
+    r = tlc.run("DjcProvide", "DjcProvide_noowner.cfg", workers=2)
+    if "InjectSound" not in r.violated and "RefsWellFormed" not in r.violated:
+        raise MachineryError("DjcProvide with OwnerRef=FALSE should be refuted (lazy default content; vacuity guard)")
+    chk.add("refcount_noowner_counterexample_found", 1)
 
 
 def body(chk: Check, *, mc_nodes: int, n_random: int, n_hist: int, hist_len: int, deep: int, refcount: bool = True) -> None:
@@ -87,7 +91,7 @@ def body(chk: Check, *, mc_nodes: int, n_random: int, n_hist: int, hist_len: int
                     "expected_err": exp[mid["id"]]["err"]}, limit=2)
     rnd = random.Random(chk.seed * 1000003 + 5)
     g = P.Gen(rnd, depth=deep, width=3, collide=False, provide=True, required=0.0)
-    progs = [g.program(i + 1, P.MODES[i % 2]) for i in range(n_random)]
+    progs = [g.program(i + 1, P.MODES[i % 2]) for i in range(n_random)] + djc.regression_programs(PID)
     exp = djc.oracle(progs)
     states += djc.oracle.last_states
     st = djc.compare_batch(chk, progs, exp, djc.real(progs), "rand-provide")
